@@ -718,7 +718,13 @@ class ExcludeRegionState(object):  # pylint: disable=too-many-instance-attribute
         elif (deltaE != 0):
             # Recover any retraction recorded from the excluded region before the next
             # extrusion occurs
-            returnCommands = self.recoverRetractionIfNeeded(cmd, False)
+            # Any pending recovery must be generated relative to the extruder position held
+            # before this move, so the move itself still extrudes the amount the file specifies
+            eAxis.current = priorE
+            try:
+                returnCommands = self.recoverRetractionIfNeeded(cmd, False)
+            finally:
+                eAxis.current = extruderPosition
         else:
             returnCommands = [cmd]
 
